@@ -147,6 +147,8 @@ def runListCase (ord : Order) (hdr : List String) (ops : List String) : List Str
 def runCase (hdr : List String) (ops : List String) : List String :=
   match hdr with
   | "list" :: rest => runListCase .addThenStore rest ops
+  -- `list1`: the harness reports GOMAXPROCS == 1 to the code; the model does not depend on it
+  | "list1" :: rest => runListCase .addThenStore rest ops
   | "list-old" :: rest => runListCase .storeThenAdd rest ops
   | _ => bad ops
 
